@@ -31,4 +31,158 @@ def replay(case):
         v = scan_props.c07(doc, _t5(o1["fails"]), _t5(o2["fails"]), o1["err"], o1["code"])
         obs.update(code=o1["code"], fails=o1["fails"], err=o1["err"][:3], violations=v)
         return {"violates": bool(v), "observed": obs}
+    if prop == "C09":
+        return replay_c09(case, doc, obs)
+    if prop == "C10":
+        return replay_c10(case, doc, obs)
+    if prop == "C12":
+        return replay_c12(case, doc, obs)
+    if prop == "C14":
+        return replay_c14(case, doc, obs)
     raise ValueError(prop)
+
+
+class _O:
+    """adapter giving a concrete observation the attribute interface scan_props expects"""
+
+    def __init__(self, o, files=None, log=()):
+        self.code = o["code"]
+        self.err = o["err"]
+        self.out = o["out"]
+        self.fixed = o["fixed"]
+        self._fails = o["fails"]
+        self.files = files or []
+        self.log = list(log)
+
+    def fail_tuples(self):
+        return _t5(self._fails)
+
+
+def _fixable():
+    import os
+
+    import pymarkdown.main
+    from application_properties import ApplicationProperties
+    from pymarkdown.plugin_manager.plugin_manager import PluginManager
+
+    from checks.app_real import _collecting_presentation
+
+    pm = PluginManager(_collecting_presentation())
+    pm.initialize(os.path.join(os.path.dirname(pymarkdown.main.__file__), "plugins"), [], "", "", ApplicationProperties(), False, False)
+    return {p.plugin_id.lower() for p in pm._PluginManager__registered_plugins if p.plugin_supports_fix}
+
+
+def _files(sb):
+    return [(p, sb.read(p)) for p in sb.listing()] + [("/vtmp/" + n, "") for n in sb.temp_leftovers()]
+
+
+def replay_c09(case, doc, obs):
+    sel = rule_args(case["params"].get("selection", "default"))
+    with Sandbox() as sb:
+        sb.write(F, doc)
+        o1 = real_main(sb, sel + ["fix", F])
+        d1 = sb.read(F)
+        o2 = real_main(sb, sel + ["fix", F])
+        d2 = sb.read(F)
+        o3 = real_main(sb, sel + ["scan", F])
+    v = scan_props.c09(doc, d1, d2, _O(o1), _O(o2), _t5(o3["fails"]), _fixable())
+    obs.update(after_first=d1, after_second=d2, codes=[o1["code"], o2["code"], o3["code"]], err=o1["err"][:2], violations=v)
+    return {"violates": bool(v), "observed": obs}
+
+
+def replay_c10(case, doc, obs):
+    sel = rule_args(case["params"].get("selection", "default"))
+    minimal = case["params"].get("scheme") == "minimal"
+    pre = ["--return-code-scheme", "minimal"] if minimal else []
+    import hashlib
+    import os
+
+    with Sandbox() as sb:
+        sb.write(F, doc)
+        before = os.stat(sb.path(F))
+        os_ = real_main(sb, pre + sel + ["scan", F])
+        ds = sb.read(F)
+        after = os.stat(sb.path(F))
+        files_s = _files(sb)
+        log = [] if (before.st_mtime_ns == after.st_mtime_ns and before.st_ino == after.st_ino) else [("write", F)]
+        of = real_main(sb, pre + sel + ["fix", F])
+        d1 = sb.read(F)
+        files_f = _files(sb)
+    v = scan_props.c10(doc, ds, _O(os_, files_s, log), d1, _O(of, files_f), _fixable(), F, minimal)
+    obs.update(after_fix=d1, codes=[os_["code"], of["code"]], fixed=of["fixed"], violations=v)
+    return {"violates": bool(v), "observed": obs}
+
+
+def _table():
+    import os
+
+    import pymarkdown.main
+    from application_properties import ApplicationProperties
+    from pymarkdown.plugin_manager.plugin_manager import PluginManager
+
+    from checks.app_real import _collecting_presentation
+
+    pm = PluginManager(_collecting_presentation())
+    pm.initialize(os.path.join(os.path.dirname(pymarkdown.main.__file__), "plugins"), [], "", "", ApplicationProperties(), False, False)
+    return sorted((p.plugin_id.lower(), bool(p.plugin_enabled_by_default)) for p in pm._PluginManager__registered_plugins if p.plugin_id.lower() != "md999")
+
+
+def _bag(fails):
+    return sorted((f[1], f[2], f[3], f[5] or "") for f in fails)
+
+
+def replay_c12(case, doc, obs):
+    table = _table()
+    ids = [r for r, _ in table]
+    default_ids = [r for r, d in table if d]
+    sels = ["all", "default"] + ["only:" + r for r in ids]
+    if case["params"].get("minus"):
+        sels += ["minus:" + r for r in default_ids]
+    res = {}
+    with Sandbox() as sb:
+        sb.write(F, doc)
+        for sel in sels:
+            o = real_main(sb, rule_args(sel) + ["scan", F])
+            res[sel] = None if (o["code"] not in (0, 1) or any("Error" in e for e in o["err"])) else _bag(o["fails"])
+    v = scan_props.c12(res, ids, default_ids)
+    obs.update(all=res.get("all"), violations=v)
+    return {"violates": bool(v), "observed": obs}
+
+
+def replay_c14(case, doc, obs):
+    import os
+    import sys
+
+    from checks.parse_real import tokenizer
+
+    plug = os.path.join(os.path.dirname(os.path.dirname(os.path.abspath(__file__))), "plugins")
+    if plug not in sys.path:
+        sys.path.insert(0, plug)
+    import recorder_rule
+
+    R = recorder_rule.RecorderRule
+    second = case["params"].get("second")
+    disabled = bool(case["params"].get("disabled"))
+    argv = ["--add-plugin", os.path.join(plug, "recorder_rule.py")] + (["-d", "vpr001"] if disabled else []) + ["scan", F] + (["/vfs/g.md"] if second is not None else [])
+    R.reset()
+    with Sandbox() as sb:
+        sb.write(F, doc)
+        if second is not None:
+            sb.write("/vfs/g.md", second)
+        o = real_main(sb, argv)
+    log = list(R.LOG)
+    ds = [doc] + ([second] if second is not None else [])
+    toks = []
+    for d in ds:
+        try:
+            t = tokenizer().transform(d, show_debug=False, do_add_end_of_stream_token=True)
+            if t and t[-1].is_pragma:
+                t = t[:-1]
+            toks.append(t)
+        except Exception:  # noqa
+            toks.append(None)
+    if any("Error" in e for e in o["err"]):
+        return {"violates": False, "observed": dict(obs, err=o["err"][:2])}
+    v = scan_props.c14(log, ds, toks, enabled=not disabled)
+    obs.update(calls="".join(e[0][0] for e in log)[:200], violations=v)
+    return {"violates": bool(v), "observed": obs}
